@@ -226,8 +226,10 @@ pub fn gen_inventory(repo: &str) -> String {
     let list = |name: &str, v: &[String]| format!("def {} : List String := [\n{}]\n\n", name, v.iter().map(|s| format!("  {}", lean_str(s))).collect::<Vec<_>>().join(",\n"));
     let mut o = String::new();
     o.push_str("-- GENERATED by harness/src/bin/extract from all non-test code under src/. Do not edit.\nnamespace Solstat.Gen\n\n");
-    // `as` conversions never abort (they truncate / saturate); they are listed for information only
-    let (cast_sites, panic_sites): (Vec<String>, Vec<String>) = panic_sites.into_iter().partition(|s| s.contains("::cast:"));
+    // `as` conversions never abort (they truncate / saturate) and `str::parse` returns a Result (the `unwrap`/`expect`
+    // applied to it, if any, is a site of its own); both are listed for information only
+    let (cast_sites, panic_sites): (Vec<String>, Vec<String>) =
+        panic_sites.into_iter().partition(|s| s.contains("::cast:") || s.contains("::call:parse#"));
     o.push_str(&list("panicSites", &panic_sites));
     o.push_str(&list("castSites", &cast_sites));
     o.push_str(&list("effectSites", &effect_sites));
